@@ -397,7 +397,8 @@ func (index *uniqueIndex) CheckIntegrity(ctx MutateContext, fix bool, errorSink 
 	for entityCursor := index.symbol.GetStore().IterateValidIds(tx, ast.BoolNodeTrue); entityCursor.IsValid(); entityCursor.Next() {
 		id := entityCursor.Current()
 		fieldType, fieldVal := index.symbol.Eval(tx, id)
-		if fieldType == TypeNil {
+		if fieldType == TypeNil || len(fieldVal) == 0 {
+			// an empty value is never indexed (see ProcessAfterUpdate), it is treated like nil
 			if !index.nullable {
 				errorSink(errors.Errorf("entity with id %s has non-nillable unique index %v.%v, but field has nil value, unable to fix",
 					string(id), store.GetEntityType(), index.symbol.GetName()), false)
